@@ -28,6 +28,7 @@ func c12Report(t vh.Fataler, rec *vh.Rec, c any, res C12Result) {
 func TestVerif_C12_bidir(t *testing.T) {
 	rec := vh.NewRec("C12", "bidir", "rapid-generated (phantom subnet file x registrar configuration x one hostile client request) through RegisterBidirectional with a recording ZMQ sender; the forwarded bytes are ingested by a station built from the same subnet file; non-trivial = the request was accepted and a forged registrar-only field, a parameter override or a substituted phantom is present; distinct by whole case")
 	defer rec.Flush()
+	defer func() { rec.Extra("open_fds_at_end_sum_over_shards", C12OpenFDs()) }()
 	rec.Require("accepted", "refused", "forged-response", "forged-signature-fields", "authenticated", "unauthenticated",
 		"built-by-exported-constructor:auth=true", "built-by-exported-constructor:auth=false",
 		"param-override", "overrides-disabled-and-configured", "substituted:Min_Transport", "substituted:Prefix_Transport",
@@ -52,6 +53,7 @@ func TestVerif_C12_bidir(t *testing.T) {
 func TestVerif_C12_unidir(t *testing.T) {
 	rec := vh.NewRec("C12", "unidir", "rapid-generated (phantom subnet file x registrar configuration x one hostile client request) through RegisterUnidirectional; the forwarded message must carry no response / signature fields and the client's payload unchanged, and a station ingesting it must end with the phantom its own selector derives; non-trivial = accepted and a forged registrar-only field was present; distinct by whole case")
 	defer rec.Flush()
+	defer func() { rec.Extra("open_fds_at_end_sum_over_shards", C12OpenFDs()) }()
 	rec.Require("accepted", "forged-response", "forged-signature-fields", "authenticated", "unauthenticated", "station-v4", "station-v6")
 	e := C12NewEnv(t)
 	if p := vh.ReplayFile(); p != "" {
